@@ -138,6 +138,63 @@ impl<T> VxIntoSeq<T> for VxIter<T> {
     open spec fn into_seq(&self) -> Seq<T> { self.seq() }
 }
 
+// ------------------------------------------------------------------ IndexMap<i64, V> (curve nodes)
+
+#[verifier::external_body]
+#[verifier::reject_recursive_types(K)]
+#[verifier::reject_recursive_types(V)]
+pub struct IndexMap<K, V> { _p: core::marker::PhantomData<(K, V)> }
+
+impl<K, V> IndexMap<K, V> {
+    /// insertion-ordered (key, value) pairs; keys are distinct (type invariant of indexmap)
+    pub uninterp spec fn kv(&self) -> Seq<(K, V)>;
+}
+
+pub open spec fn keys_of<K, V>(s: Seq<(K, V)>) -> Seq<K> { s.map_values(|p: (K, V)| p.0) }
+
+pub open spec fn sorted_i64(s: Seq<i64>) -> bool { forall|i: int, j: int| 0 <= i < j < s.len() ==> s[i] < s[j] }
+
+impl<V> IndexMap<i64, V> {
+    #[verifier::external_body]
+    pub fn len(&self) -> (r: usize) ensures r == self.kv().len() { unimplemented!() }
+
+    #[verifier::external_body]
+    pub fn get_index(&self, i: usize) -> (r: Option<(&i64, &V)>)
+        ensures
+            r.is_some() <==> i < self.kv().len(),
+            r.is_some() ==> *r.unwrap().0 == self.kv()[i as int].0 && *r.unwrap().1 == self.kv()[i as int].1,
+    { unimplemented!() }
+
+    #[verifier::external_body]
+    pub fn first(&self) -> (r: Option<(&i64, &V)>)
+        ensures
+            r.is_some() <==> self.kv().len() > 0,
+            r.is_some() ==> *r.unwrap().0 == self.kv()[0].0 && *r.unwrap().1 == self.kv()[0].1,
+    { unimplemented!() }
+
+    #[verifier::external_body]
+    pub fn keys(&self) -> (r: VxIter<&i64>)
+        ensures derefs(r.seq()) == keys_of(self.kv()), r.seq().len() == self.kv().len(),
+            forall|i: int| #![trigger r.seq()[i]] #![trigger self.kv()[i]] 0 <= i < self.kv().len() ==> *(r.seq()[i]) == self.kv()[i].0,
+    { unimplemented!() }
+
+    /// sort_keys: the same (key, value) pairs, keys strictly increasing (keys are distinct)
+    #[verifier::external_body]
+    pub fn sort_keys(&mut self)
+        ensures
+            final(self).kv().len() == old(self).kv().len(),
+            final(self).kv().to_multiset() == old(self).kv().to_multiset(),
+            sorted_i64(keys_of(final(self).kv())),
+    { unimplemented!() }
+}
+
+impl<'a> VxIter<&'a i64> {
+    #[verifier::external_body]
+    pub fn cloned(self) -> (r: VxIter<i64>)
+        ensures r.seq() == derefs(self.seq()), r.seq().len() == self.seq().len(),
+    { unimplemented!() }
+}
+
 // ------------------------------------------------------------------ eager iterator
 
 #[verifier::external_body]
